@@ -62,6 +62,7 @@ class Contract:
         self.variants = None    # list of dicts: run the proof once per variant (e.g. receiver class)
         self.recv_class = None  # class key of `self` when different from the defining class
         self.at_raise = set()
+        self.call_cuts = []     # proof cuts at call sites: (callee key, when, label, text, ordinals)
 
     # -- declaration helpers
     def param(self, name, desc):
@@ -103,6 +104,15 @@ class Contract:
 
     def loop(self, k):
         return self.loops.setdefault(k, LoopSpec())
+
+    def at_call(self, callee, text, label, when="before", ordinals=None):
+        """Proof cut (ghost assertion) at the calls of `callee` in the function under proof: `text`, read over the caller's locals and
+        this contract's definitions, is an OBLIGATION of its own at that program point (before the call / after its normal return) and is
+        assumed on the rest of the path.  Assert-then-assume: it can only split a proof into smaller VCs, never add an assumption.
+        `ordinals`: the calls concerned, counted in source order among the calls of that callee in the function (None = all)."""
+        assert when in ("before", "after")
+        self.call_cuts.append((callee, when, label, text, None if ordinals is None else tuple(ordinals)))
+        return self
 
     def define(self, name, params, text):
         self.defs[name] = (params, text)
